@@ -1,60 +1,87 @@
 (* C41: TLS negotiation picks mutually supported parameters and resists downgrade.  Property theorems only.
    `negotiate cfg hello` is the model of bfe_tls serverHandshakeState.readClientHello (decision part):
    Alert code = the handshake is refused with that alert; Done resume vers suite alpn npn protos = the
-   handshake proceeds (abbreviated when resume) with these parameters. *)
+   handshake proceeds (abbreviated when resume) with these parameters.  `eff cfg hello` is the
+   configuration as seen by this connection: the rule returned by ServerRule.Get for the connection's
+   server name and the key type of the certificate chosen by Config.getCertificateForName. *)
 From Coq Require Import List ZArith Bool.
 From Bfe Require Import lib.Val lib.Bytes gen.TlsSuites model.TlsNego proofs.TlsNegoProofs run.RunC41.
 Import ListNotations.
 Open Scope Z_scope.
 
-(* Every accepted handshake (full or resumed) runs at a version inside the configured range
-   [MinVersion or SSLv3, MaxVersion or TLS1.2], not above the client's, and inside the rule's grade
-   (A: at least TLS 1.0, A+: TLS 1.2). *)
+(* CENTRAL THEOREM.  For every well-formed harness input (decodable, non-empty configured version range)
+   outside known-finding class 3 the model's own outcome satisfies the executable property that the
+   harness evaluates on the implementation's outcome. *)
+Theorem C41_prop_of_model : forall i,
+  wf_C41 i = true -> kf_C41 i = 0 -> prop_C41 i (run_C41 i) = true.
+Proof. exact prop_of_model. Qed.
+Print Assumptions C41_prop_of_model.
+
+(* Every accepted handshake (full or resumed from a ticket or from the session-ID cache) runs at a version
+   inside the configured range [MinVersion or SSLv3, MaxVersion or TLS1.2], not above the client's, and
+   inside the grade of the rule selected for the connection (A: at least TLS 1.0, A+: TLS 1.2). *)
 Theorem C41_version_in_range : forall c h r v s a n p,
   min_version c <= max_version c ->
   negotiate c h = Done r v s a n p ->
   min_version c <= v /\ v <= max_version c /\ v <= h_vers h /\
-  (grade_of c = grade_a -> version_tls10 <= v) /\ (grade_of c = grade_aplus -> version_tls12 <= v).
-Proof. exact version_in_range. Qed.
+  (grade_of (eff c h) = grade_a -> version_tls10 <= v) /\
+  (grade_of (eff c h) = grade_aplus -> version_tls12 <= v).
+Proof. exact version_in_range_conn. Qed.
 Print Assumptions C41_version_in_range.
 
-(* Every accepted handshake (normal loop, equivalent-priority loop, ECDHE-without-extensions retry, or
-   resumption) uses a suite the client offered, that is in the server's list and implemented, and that
-   is enabled for the connection's rule: ChaCha20 only when the rule allows it, RC4 per the grade policy,
-   TLS-1.2-only suites only at TLS 1.2, ECDSA suites exactly when the certificate key is ECDSA. *)
+(* Every accepted handshake (normal loop, equivalent-priority loop, ECDHE-without-extensions retry, ticket
+   or cache resumption) uses a suite the client offered, that is in the server's list and implemented, and
+   that is enabled for the connection's rule: ChaCha20 only when the rule allows it, RC4 per the grade
+   policy, TLS-1.2-only suites only at TLS 1.2, ECDSA suites exactly when the selected certificate's key
+   is ECDSA. *)
 Theorem C41_suite_mutual : forall c h r v s a n p,
   min_version c <= max_version c ->
   negotiate c h = Done r v s a n p ->
-  mem s (h_suites h) = true /\ mem s (cfg_suites c) = true /\ spec_suite_ok c h v s = true.
-Proof. exact suite_mutual_full. Qed.
+  mem s (h_suites h) = true /\ mem s (cfg_suites c) = true /\ spec_suite_ok (eff c h) h v s = true.
+Proof. exact suite_mutual_conn. Qed.
 Print Assumptions C41_suite_mutual.
+
+(* The grade policy of common.go (checkVersionGrade + checkCipherGrade) on completed handshakes:
+   A+: TLS 1.2 and no RC4;  A: >= TLS 1.0 and no RC4;  B: no RC4 from TLS 1.0 up, only RC4 at SSLv3;
+   C with Ssl3PoodleProofed: only RC4 at SSLv3. *)
+Theorem C41_grade_policy : forall c h r v s a n p fl,
+  min_version c <= max_version c ->
+  negotiate c h = Done r v s a n p -> suite_flags s = Some fl ->
+  let g := grade_of (eff c h) in
+  let rc4 := has fl fl_rc4 in
+  (g = grade_aplus -> version_tls12 <= v /\ rc4 = false) /\
+  (g = grade_a -> version_tls10 <= v /\ rc4 = false) /\
+  (g = grade_b -> (version_tls10 <= v -> rc4 = false) /\ (v < version_tls10 -> rc4 = true)) /\
+  (g = grade_c -> c_poodle c = true -> v = version_ssl30 -> rc4 = true).
+Proof. exact grade_policy. Qed.
+Print Assumptions C41_grade_policy.
 
 (* A ClientHello carrying TLS_FALLBACK_SCSV with a version below the server's highest enabled version
    (MaxVersion, or TLS 1.2 when MaxVersion is left at its default 0) is never accepted -- with or without
-   a valid session ticket.  (True after /repo fix 1cb6dd6; before it both halves failed.) *)
+   a resumable session.  (True after /repo fix 1cb6dd6; before it both halves failed.) *)
 Theorem C41_scsv_refused : forall c h,
   In tls_fallback_scsv (h_suites h) -> h_vers h < max_version c ->
   exists code, negotiate c h = Alert code.
-Proof. exact scsv_refused. Qed.
+Proof. exact scsv_refused_conn. Qed.
 Print Assumptions C41_scsv_refused.
 
 (* ... and when the version and compression offer are otherwise acceptable the alert is inappropriate_fallback *)
 Theorem C41_scsv_alert : forall c h v0 v,
   In tls_fallback_scsv (h_suites h) -> h_vers h < max_version c ->
-  mutual_version c (h_vers h) = Some v0 -> check_version_grade v0 (grade_of c) = Some v ->
+  mutual_version c (h_vers h) = Some v0 -> check_version_grade v0 (grade_of (eff c h)) = Some v ->
   In compression_none (h_comp h) ->
   negotiate c h = Alert alert_inappropriate_fallback.
-Proof. exact scsv_alert_86. Qed.
+Proof. exact scsv_alert_conn. Qed.
 Print Assumptions C41_scsv_alert.
 
 (* ALPN.  Full statement (FALSE for the code, see C41_alpn_mutual_refuted):
-     negotiate c h = Done r v s a n p -> a <> [] -> In a (h_alpn h) /\ In a (server_protos c).
+     negotiate c h = Done r v s a n p -> a <> [] -> In a (h_alpn h) /\ In a (server_protos (eff c h)).
    Proved part: it holds whenever validateHttp2Accepted did not replace the selection. *)
 Theorem C41_alpn_mutual_partial : forall c h r v s a n p,
   negotiate c h = Done r v s a n p -> a <> [] ->
-  a = fst (fst (app_proto c h)) ->
-  In a (h_alpn h) /\ In a (server_protos c).
-Proof. exact alpn_mutual_partial. Qed.
+  a = fst (fst (app_proto (eff c h) h)) ->
+  In a (h_alpn h) /\ In a (server_protos (eff c h)).
+Proof. exact alpn_mutual_partial_conn. Qed.
 Print Assumptions C41_alpn_mutual_partial.
 
 (* Known finding 3: the client offers only "h2" with an AES-CBC suite, the server lists only "h2";
@@ -63,17 +90,9 @@ Theorem C41_alpn_mutual_refuted :
   let c := cfg_default [proto_h2] in
   let h := hello_simple 771 [47] [proto_h2] NoTicket in
   negotiate c h = Done false 771 47 proto_http11 false [] /\
-  ~ In proto_http11 (h_alpn h) /\ ~ In proto_http11 (server_protos c).
+  ~ In proto_http11 (h_alpn h) /\ ~ In proto_http11 (server_protos (eff c h)).
 Proof. exact alpn_mutual_refuted_lemma. Qed.
 Print Assumptions C41_alpn_mutual_refuted.
-
-(* The executable property evaluated by the harness holds of the model on every decodable input with a
-   non-empty configured version range, outside known-finding class 3. *)
-Theorem C41_prop_of_model : forall i c h,
-  decode i = Some (c, h) -> min_version c <= max_version c ->
-  kf_C41 i = 0 -> prop_C41 i (run_C41 i) = true.
-Proof. exact prop_of_model. Qed.
-Print Assumptions C41_prop_of_model.
 
 (* Non-vacuity *)
 Example C41_h2_negotiated :
@@ -88,3 +107,11 @@ Example C41_scsv_resumption :
   negotiate (cfg_default []) h = Alert alert_inappropriate_fallback /\
   negotiate (cfg_default []) (hello_simple 770 [47] [] (GoodTicket 770 47 0)) = Done true 770 47 [] false [].
 Proof. exact nonvacuous_scsv_resumption. Qed.
+(* corpus/C41: grade B selected by SNI rule, SSLv3 client offering AES and RC4 -> RC4;
+   wildcard certificate with an ECDSA key selected for "WWW.A.COM." -> the ECDSA suite;
+   both corpus inputs are well-formed *)
+Example C41_corpus_cases :
+  wf_C41 corpus_sni_grade_b = true /\ run_C41 corpus_sni_grade_b = VL [VZ 1; VZ 0; VZ 768; VZ 5; VB []; VZ 0; VL []] /\
+  wf_C41 corpus_wildcard_cert = true /\
+  run_C41 corpus_wildcard_cert = VL [VZ 1; VZ 0; VZ 771; VZ 49195; VB []; VZ 0; VL []].
+Proof. exact corpus_cases_ok. Qed.
